@@ -1,4 +1,5 @@
 """C08 — validation is total: any Python value yields a result, and failing is reporting."""
+from ..common import safe_repr
 from .. import encode, gen_value, model, runner, sexp, valcases, valcorr
 from ..common import d42  # noqa: F401
 from d42 import validate
@@ -22,27 +23,27 @@ EVIDENCE = dict(
              "CPython: isinstance/len/==/dict lookup on standard data never raise; re.search result shipped as a table"],
     rule="schemas from the type-directed generator (depth<=3/4); values: witness, generated under lo/hi/rnd draws, "
          "one-step perturbations at every depth, hostile zoo alone and injected at a random position; "
-         "a case is non-trivial when the value is not the bare witness; distinct by repr(schema)+repr(value); thorough tier adds every other schema of the small scope x 121 values, outcome and full error lists")
+         "a case is non-trivial when the value is not the bare witness; distinct by safe_repr(schema)+safe_repr(value); thorough tier adds every other schema of the small scope x 121 values, outcome and full error lists")
 
 
 def oracle(ctx, cases):
     """model-free: no exception; every error renders to a non-empty message; validate_or_fail contract."""
     fmt = Formatter()
     for c in cases:
-        ctx.case((repr(c.schema), repr(c.value)), c.tag != "witness")
+        ctx.case((safe_repr(c.schema), safe_repr(c.value)), c.tag != "witness")
         ctx.count("tag:" + c.tag)
         if c.real_exc is not None:
-            ctx.violation("validate raised " + type(c.real_exc).__name__, schema=repr(c.schema),
-                          value=repr(c.value), exception=repr(c.real_exc), py_schema=c.schema, py_value=c.value)
+            ctx.violation("validate raised " + type(c.real_exc).__name__, schema=safe_repr(c.schema),
+                          value=safe_repr(c.value), exception=safe_repr(c.real_exc), py_schema=c.schema, py_value=c.value)
             continue
         try:
             msgs = [e.format(fmt) for e in c.real]
         except Exception as e:  # noqa: BLE001
-            ctx.violation("formatting an error raised " + type(e).__name__, schema=repr(c.schema),
-                          value=repr(c.value), exception=repr(e))
+            ctx.violation("formatting an error raised " + type(e).__name__, schema=safe_repr(c.schema),
+                          value=safe_repr(c.value), exception=safe_repr(e))
             continue
         if any((not isinstance(m, str)) or m == "" for m in msgs):
-            ctx.violation("an error rendered to an empty message", schema=repr(c.schema), value=repr(c.value))
+            ctx.violation("an error rendered to an empty message", schema=safe_repr(c.schema), value=safe_repr(c.value))
         # format_result: [] without errors, otherwise a header line plus one "- " line per error
         try:
             from d42.validation import format_result
@@ -50,25 +51,25 @@ def oracle(ctx, cases):
             lines = format_result(ValidationResult(list(c.real)))
             if (not c.real and lines != []) or (c.real and (len(lines) != len(c.real) + 1
                                                             or not all(l.startswith("- ") for l in lines[1:]))):
-                ctx.violation("format_result does not carry one line per error", schema=repr(c.schema), value=repr(c.value),
+                ctx.violation("format_result does not carry one line per error", schema=safe_repr(c.schema), value=safe_repr(c.value),
                               lines=lines[:6], errors=len(c.real))
         except Exception as e:  # noqa: BLE001
-            ctx.violation("format_result raised " + type(e).__name__, schema=repr(c.schema), value=repr(c.value))
+            ctx.violation("format_result raised " + type(e).__name__, schema=safe_repr(c.schema), value=safe_repr(c.value))
         try:
             r = validate_or_fail(c.schema, c.value)
             if r is not True or c.real:
                 ctx.violation("validate_or_fail returned although there are errors" if c.real else
-                              "validate_or_fail returned a non-True value", schema=repr(c.schema), value=repr(c.value))
+                              "validate_or_fail returned a non-True value", schema=safe_repr(c.schema), value=safe_repr(c.value))
         except ValidationException as e:
             lines = [ln for ln in str(e).split("\n - ")[1:]]
             if not c.real:
-                ctx.violation("validate_or_fail raised without errors", schema=repr(c.schema), value=repr(c.value))
+                ctx.violation("validate_or_fail raised without errors", schema=safe_repr(c.schema), value=safe_repr(c.value))
             elif len(lines) != len(c.real) or not all(m in str(e) for m in msgs):
                 # one " - " entry per error (an entry may span several physical lines: schemas print on several lines)
-                ctx.violation("ValidationException does not carry one line per error", schema=repr(c.schema),
-                              value=repr(c.value), message=str(e))
+                ctx.violation("ValidationException does not carry one line per error", schema=safe_repr(c.schema),
+                              value=safe_repr(c.value), message=str(e))
         except Exception as e:  # noqa: BLE001
-            ctx.violation("validate_or_fail raised " + type(e).__name__, schema=repr(c.schema), value=repr(c.value))
+            ctx.violation("validate_or_fail raised " + type(e).__name__, schema=safe_repr(c.schema), value=safe_repr(c.value))
 
 
 _KIND = {"Type": "type", "Value": "value", "MinValue": "min", "MaxValue": "max", "Length": "len", "MinLength": "minlen",
@@ -139,7 +140,7 @@ def format_correspondence(ctx, cases):
             bad += 1
             if bad <= 5:
                 ctx.breakage("correspondence", "what the rendered messages name (kind, path, printed length) differs between the "
-                             "formatter model and the real Formatter", schema=repr(c.schema), value=repr(c.value),
+                             "formatter model and the real Formatter", schema=safe_repr(c.schema), value=safe_repr(c.value),
                              detail=f"real  {want}\nmodel {got}")
     ctx.cov["format_corr_disagreements"] = bad
     # validate_or_fail
@@ -161,8 +162,8 @@ def format_correspondence(ctx, cases):
         if got != want:
             bad += 1
             if bad <= 5:
-                ctx.breakage("correspondence", "validate_or_fail outcome differs between model and code", schema=repr(c.schema),
-                             value=repr(c.value), detail=f"real  {want}\nmodel {got}")
+                ctx.breakage("correspondence", "validate_or_fail outcome differs between model and code", schema=safe_repr(c.schema),
+                             value=safe_repr(c.value), detail=f"real  {want}\nmodel {got}")
     ctx.cov["vof_corr_disagreements"] = bad
 
 
@@ -189,6 +190,9 @@ def run(ctx):
     from .. import hostile
     cases += hostile.defaulting_dict_cases()
     cases += hostile.sentinel_value_cases()
+    cases += hostile.same_name_alias_cases()
+    cases += hostile.shared_object_cases()
+    cases += hostile.special_key_cases()
     for c in cases:
         valcorr.run_real(c)
         valcorr.prepare(c)
@@ -199,7 +203,7 @@ def run(ctx):
     dis = valcorr.compare(cases, ctx, view="errors")
     for c, detail in dis[:10]:
         ctx.breakage("correspondence", "validator view (error multiset) differs between model and code",
-                     schema=repr(c.schema), value=repr(c.value), detail=detail, request=c.req)
+                     schema=safe_repr(c.schema), value=safe_repr(c.value), detail=detail, request=c.req)
     ctx.cov["corr_disagreements"] = len(dis)
     format_correspondence(ctx, cases)
     if not ctx.quick():
@@ -207,7 +211,7 @@ def run(ctx):
         from .. import smallscope
         smallscope.validate_scope(ctx, view="errors", oracle=oracle, stride=2, what="outcome / error list")
     for c in cases[:200:40]:
-        ctx.sample({"schema": repr(c.schema), "value": repr(c.value), "tag": c.tag,
+        ctx.sample({"schema": safe_repr(c.schema), "value": safe_repr(c.value), "tag": c.tag,
                     "errors": [type(e).__name__ for e in (c.real or [])]})
 
 
